@@ -876,7 +876,6 @@ class Knobs:
         self.loop_only_in_closure = False
         self.loop_only_in_call_expr = False
         self.unsized_len = False
-        self.for_comment_colon = False
         self.closure_mixed = False
         self.lowerable = False      # stay inside the grammar of the shared target language (harness/gen_template.py)
         for k, v in kw.items():
@@ -1142,6 +1141,10 @@ class Gen:
         if not self.k.enable_loop or sc.no_loopctx:
             s2.loop = None
         s2.vars.append(v)
+        # a def that reads the `loop` of the loop it sits in is called at that loop's level only: called from a
+        # deeper `% for` it would see that loop (the closure reads the variable at call time), while textually
+        # its innermost enclosing loop is the outer one - the property text leaves this open
+        s2.defs = [d for d in s2.defs if not self.info[d].get("reads_loop")]
         body = self.body(s2)
         # the `% else:` clause runs after exhaustion but before `% endfor`: the property text does not say which
         # loop `loop` denotes there (mako: still this loop, index = n) - `loop` is not used in it
@@ -1153,10 +1156,9 @@ class Gen:
             if use_loop and not detected(node) and r.random() < 0.8:
                 # make sure a loop that is meant to use `loop` does, in varying positions
                 self.plant_loop(node, s2)
-            if self.k.for_comment_colon and detected(node) and r.random() < 0.5:
-                o["cmt"] = "note: " + self.lit()
-            elif r.random() < 0.15:
-                o["cmt"] = "c " + self.lit().replace(" ", "")
+            if r.random() < 0.2:
+                # a trailing comment, with or without a colon (the loop rewrite cuts it off since /repo 675f827)
+                o["cmt"] = r.choice(["c ", "note: ", "a: b: "]) + self.lit().replace(" ", "")
         return node
 
     def plant_loop(self, node, s2):
@@ -1203,7 +1205,7 @@ class Gen:
             uses = True
         else:
             uses = False
-        self.info[name] = {"arity": len(params), "uses_caller": uses}
+        self.info[name] = {"arity": len(params), "uses_caller": uses, "reads_loop": bool(reads)}
         sc.defs.append(name)
         return ["def", name, params, fl, body]
 
